@@ -322,10 +322,10 @@ fn c13_pending_borrowing_fees_sum_invariant_u8() {
     pending_borrowing_fees_nonnegative::<u8, 1>(false, 1, None);
 }
 
-//@ prop=C13 tier=thorough kind=hold
+//@ prop=C13 tier=experimental kind=hold
 //@ enc=BorrowingFeeMarketExt::total_pending_borrowing_fees, BorrowingFeeMarketExt::next_cumulative_borrowing_factor, BorrowingFeeMarketExt::borrowing_factor_per_second, BorrowingFeeKinkModelParams::borrowing_factor_per_second, utils::apply_exponent_factor, utils::apply_factor
 //@ bound=T=u8, DECIMALS=1: as c13_pending_borrowing_fees_nonnegative_u8 but every rate configuration (kink model on/off, exponents <= 2*UNIT, unwind 4)
-//@ stubs=none; same invariant
+//@ stubs=none; same invariant. Does NOT finish: timeout at 3000 s (the sum-invariant inequality over five u8 values on top of the full rate formula)
 //@ timeout=3600 mem=30
 #[kani::proof]
 #[kani::unwind(4)]
